@@ -106,6 +106,45 @@ def score3(v0a: bool, v0b: bool, a0: bool, v1a: bool, v1b: bool, a1: bool, v2a: 
     return _run(specs, False)
 
 
+LABELS = ["bonus", "Bonus_Check", "other"]
+
+
+def label_suppress(l0: bool, l1: bool, neg0: bool, a0: bool, mu0: bool, neg1: bool, a1: bool,
+                   s0: bool, s1: bool, with_cat: bool) -> bool:
+    """
+    Suppression by LABEL (`report.suppress(label=L)` / `suppress('instructor', L)`): a feedback whose label is exactly L is
+    suppressed and contributes no score; the other one counts. Feedback labels and L from {bonus, Bonus_Check, other}
+    (equal spelling or a different word: letter-case variants of one word are not settled by the text), scores +25% / 0.5,
+    valence, triggered, muted symbolic; a triggered gently() keeps the result away from the default.
+
+    pre: True
+    post: _
+    """
+    if tick():
+        return True
+    i0, i1, k = (1 if l0 else 0), (1 if l1 else 2), bits(s0, s1)
+    if k == 3:
+        return True
+    r = Report()
+    Feedback(label="wrong", category="instructor", message="W", activate=True, valence=-1, report=r)
+    f0 = Feedback(label=LABELS[i0], category="instructor", message="M0", activate=a0, score="+25%",
+                  valence=-1 if neg0 else 1, muted=mu0, report=r)
+    f1 = Feedback(label=LABELS[i1], category="instructor", message="M1", activate=a1, score=0.5,
+                  valence=-1 if neg1 else 1, report=r)
+    if with_cat:
+        r.suppress("instructor", LABELS[k])
+    else:
+        r.suppress(label=LABELS[k])
+    final = simple.resolve(r)
+    total = Fraction(0)
+    if i0 != k and (a0 != neg0):
+        total += Fraction(1, 4)
+    if i1 != k and (a1 != neg1):
+        total += Fraction(1, 2)
+    flag("summed")
+    return final.score == round(float(total), 2)
+
+
 def score_reach(a0: bool, a1: bool) -> bool:
     """
     Reachability twin: REFUTED when an untriggered negative awards its points next to a triggered one.
